@@ -25,9 +25,73 @@ class Elem(Obj):
 
 
 def _elem(recv):
+    if isinstance(recv, Obj) and recv.name == "xmltree" and isinstance(recv.attrs.get("root"), Elem):
+        return recv.attrs["root"]  # ElementTree.parse(...) result: queries go to its root
     if not isinstance(recv, Elem):
         raise NotHandled()
     return recv
+
+
+def mkpath(p):
+    """pathlib.Path as an object with a string and a parent"""
+    p = str(p).replace("//", "/")
+    parent = p.rsplit("/", 1)[0] if "/" in p else "."
+    o = Obj("path", {"p": p}, closed=True)
+    o.attrs["parent"] = o if p == parent else (mkpath(parent) if p not in (".", "") else o)
+    o.attrs["parents"] = []
+    return o
+
+
+def file_externals(fs, store):
+    """pathlib / open / ElementTree.parse+tostring / uproot.recreate / shutil over a dict file system `fs`
+    (path string -> root element of the XML document written there)."""
+    def pstr(x):
+        if isinstance(x, Obj) and x.name == "path":
+            return x.attrs["p"]
+        if isinstance(x, str):
+            return x
+        raise Undecided("a path that is neither a string nor a Path")
+
+    def joinpath(recv, a, k):
+        if not (isinstance(recv, Obj) and recv.name == "path"):
+            raise NotHandled()
+        p = recv.attrs["p"]
+        for x in a:
+            x = pstr(x)
+            p = x if x.startswith("/") else (x if p in (".", "") else f"{p}/{x}")
+        return mkpath(p)
+
+    def open_(a, k):
+        return Obj("file", {"path": pstr(a[0]), "mode": a[1] if len(a) > 1 else k.get("mode", "r")}, closed=True)
+
+    def write(recv, a, k):
+        if not (isinstance(recv, Obj) and recv.name == "file"):
+            raise NotHandled()
+        if isinstance(a[0], Obj) and a[0].name == "xmltext":
+            fs[recv.attrs["path"]] = a[0].attrs["elem"]
+        elif not isinstance(a[0], (str, bytes)):
+            raise Undecided("write of something that is neither text nor a serialised element")
+        return None
+
+    def et_parse(a, k):
+        src = a[0]
+        if isinstance(src, Elem):
+            return Obj("xmltree", {"root": src}, closed=True)
+        p = pstr(src)
+        if p not in fs:
+            raise Undecided(f"the reader opens {p!r}; the writer produced {sorted(fs)}")
+        return Obj("xmltree", {"root": fs[p]}, closed=True)
+
+    def recreate(a, k):
+        return Obj("rootfile", {"file_path": pstr(a[0])}, closed=True)
+
+    return {
+        "Path": lambda a, k: a[0] if isinstance(a[0], Obj) and a[0].name == "path" else mkpath(pstr(a[0])),
+        ".joinpath": joinpath, "open": open_, ".write": write, "copyfile": lambda a, k: None, "recreate": recreate,
+        "tostring": lambda a, k: Obj("xmltext", {"elem": a[0]}, closed=True),
+        ".decode": lambda recv, a, k: recv if isinstance(recv, Obj) and recv.name == "xmltext" else (_ for _ in ()).throw(NotHandled()),
+        "parse": et_parse,
+    }
 
 
 class SymStr(str):
@@ -45,6 +109,8 @@ def externals(store):
         v = a[0] if a else ""
         if isinstance(v, str):
             return v
+        if isinstance(v, Obj) and v.name == "path":
+            return v.attrs["p"]
         if isinstance(v, bool) or v is None:
             return str(v)
         p = to_poly(v)
